@@ -3,9 +3,9 @@ import json, os
 from . import core
 
 def run_jobs(jobs):
-    exes = {v: core.build(v, ("off",)) for v in sorted({j["variant"] for j in jobs})}
+    exes = {v: core.build(v, ("off", "offj")) for v in sorted({j["variant"] for j in jobs})}
     def one(j):
-        cmd = [exes[j["variant"]], "off"]
+        cmd = [exes[j["variant"]], j.get("cmd", "off")]
         for k, v in j["args"].items():
             cmd += ["--" + k, str(v)]
         cmd += ["--out", j["out"]]
@@ -17,11 +17,49 @@ def run_jobs(jobs):
 def run(ctx, kind, rule):
     q = ctx.quick; s = ctx.seed; jobs = []
     for k in range(16 if q else 48):
-        jobs.append({"variant": "plain", "args": {"kind": kind, "seed": s * 1000 + k, "n": 12 if q else 40, "nparam": 10, "npts": 160 if q else 260}, "out": ctx.path("off_%02d.ndjson" % k)})
+        jobs.append({"variant": "plain", "args": {"kind": kind, "seed": s * 1000 + k, "n": 12 if q else 40, "nparam": 10, "npts": 160 if q else 260, "jout": ctx.path("join_%02d.ndjson" % k)}, "out": ctx.path("off_%02d.ndjson" % k)})
     run_jobs(jobs)
+    cls = [0, 0, 0]
+    judge(ctx, jobs, cls)
+    joins(ctx, kind, jobs, cls)
+    ctx.extra["sample_points_must_mustnot_free"] = cls
+    return core.finish(ctx, "model_checking", rule, confirm=lambda rec: replay_rec(rec, ctx.prop))
+
+def joins(ctx, kind, jobs, cls):
+    """Layer 2 binding (hook H5): what ClipperOffset appends per vertex, validated against OffsetJoinTrace.tla (J1-J3) for the calls judged
+    above and for arbitrary small paths.  A failure is an engine-level divergence: recorded, and ESCALATED to the observable check on
+    that call with a dense sample (DESIGN.md 3.6) - never a verdict by itself."""
+    q = ctx.quick
+    files = [j["args"]["jout"] for j in jobs if os.path.exists(j["args"]["jout"])]
+    oj = [{"variant": "plain", "cmd": "offj", "args": {"seed": ctx.seed * 1000 + 900 + k, "n": 150 if q else 600}, "out": ctx.path("offj_%02d.ndjson" % k)} for k in range(2 if q else 6)]
+    run_jobs(oj); files += [j["out"] for j in oj]
+    res = core.validate_traces("OffsetJoinTrace", "OffsetJoinTrace.cfg", files, timeout=1800)
+    n = 0; div = []; cases = []
+    for f, r in res:
+        ctx.add_tlc(r); lines = None
+        n += sum(1 for ln in open(f) if ln.startswith('{"e":"Join"'))
+        for fl in r.fails:
+            lines = lines or core.read_lines(f)
+            i = fl["line"] - 1
+            while i > 0 and not lines[i].startswith('{"e":"JCase"'):
+                i -= 1
+            c = json.loads(lines[i])["case"]; div.append({"clause": fl["clause"], "detail": fl["detail"], "case": c, "join": json.loads(lines[fl["line"] - 1])})
+            et_ok = (c["et"] == 0) == (kind == "poly")
+            if et_ok:
+                cases.append(json.dumps(c))
+    ctx.extra["offset_joins_validated"] = n
+    ctx.extra["engine_divergences_offset_joins"] = {"count": len(div), "clauses": sorted({d["clause"] for d in div}), "sample": div[:2]}
+    if cases:
+        core.log("[%s] %d engine-level divergence(s) in ClipperOffset joins (%s): escalating to the observable check on those calls" % (ctx.prop, len(div), ", ".join(sorted({d["clause"] for d in div}))))
+        inf = ctx.path("escalate_off.ndjson")
+        with open(inf, "w") as fh:
+            fh.write("\n".join(sorted(set(cases))[:80]) + "\n")
+        ej = [{"variant": "plain", "args": {"kind": kind, "in": inf, "npts": 1200, "seed": ctx.seed}, "out": ctx.path("off_escalated.ndjson")}]
+        run_jobs(ej); judge(ctx, ej, cls)
+
+def judge(ctx, jobs, cls):
     res = core.validate_traces("OffsetTrace", "OffsetTrace.cfg", [j["out"] for j in jobs], timeout=3600)
     byf = {j["out"]: j for j in jobs}
-    cls = [0, 0, 0]
     for f, r in res:
         ctx.add_tlc(r)
         lines = core.read_lines(f)
@@ -47,15 +85,13 @@ def run(ctx, kind, rule):
             rec = {"prop": prop, "clause": fl["clause"], "detail": fl["detail"], "case": case, "event": {k: v for k, v in ev.items() if k not in ("pts", "cover")},
                    "harness": {"variant": byf[f]["variant"], "args": byf[f]["args"]}}
             (ctx.fails if prop == ctx.prop else ctx.other).append(rec)
-    ctx.extra["sample_points_must_mustnot_free"] = cls
-    return core.finish(ctx, "model_checking", rule, confirm=lambda rec: replay_rec(rec, ctx.prop))
 
 def replay_rec(rec, prop):
     work = os.path.join(core.CACHE, "work", "replayoff_%d" % os.getpid()); os.makedirs(work, exist_ok=True)
     inf = os.path.join(work, "in.ndjson")
     with open(inf, "w") as f:
         f.write(json.dumps(rec["case"]) + "\n")
-    a = dict(rec["harness"]["args"]); a["in"] = inf
+    a = dict(rec["harness"]["args"]); a["in"] = inf; a.pop("jout", None)
     j = {"variant": rec["harness"]["variant"], "args": a, "out": os.path.join(work, "out.ndjson")}
     run_jobs([j])
     res = core.validate_traces("OffsetTrace", "OffsetTrace.cfg", [j["out"]])
